@@ -254,6 +254,8 @@ func (s *c06State) newKeys(base *c06State) (leases, index, tokens, aux []string)
 // expiration workers) and - for a bounded time only - no token entry is marked
 // revocation-pending. Not settling within the bound is inconclusive, never a
 // verdict.
+var c06Stuck = map[*vCore]map[string]bool{}
+
 func c06Settle(v *vCore) (*c06State, int, string) {
 	soft := 0
 	for i := 0; i < 600; i++ {
@@ -270,12 +272,23 @@ func c06Settle(v *vCore) (*c06State, int, string) {
 			}
 		}
 		pendingTok := false
-		for _, te := range s.Tokens {
-			if te.NumUses < 0 {
+		for k, te := range s.Tokens {
+			if te.NumUses < 0 && !c06Stuck[v][k] {
 				pendingTok = true
 			}
 		}
 		if !hard && (!pendingTok || soft >= 60) {
+			if pendingTok {
+				// a revocation-pending marker nobody is working on (its revocation failed): stop waiting for it
+				if c06Stuck[v] == nil {
+					c06Stuck[v] = map[string]bool{}
+				}
+				for k, te := range s.Tokens {
+					if te.NumUses < 0 {
+						c06Stuck[v][k] = true
+					}
+				}
+			}
 			return s, n1, ""
 		}
 		if !hard {
